@@ -459,6 +459,13 @@ class SymExec:
             b.conds = b.conds + (('F', U.src(s.test)),)
             a.events.append(('cond', 'T', U.src(s.test)))
             b.events.append(('cond', 'F', U.src(s.test)))
+            if isinstance(s.test, ast.UnaryOp) and isinstance(s.test.op, ast.Not):
+                # canonical form: the decision is also recorded for the un-negated test
+                inner = U.src(s.test.operand)
+                a.conds = a.conds + (('F', inner),)
+                b.conds = b.conds + (('T', inner),)
+                a.events.append(('cond', 'F', inner))
+                b.events.append(('cond', 'T', inner))
             # (x or y) false => x false and y false ; (x and y) true => both true
             if isinstance(s.test, ast.BoolOp):
                 for v_ in s.test.values:
@@ -498,6 +505,9 @@ class SymExec:
 
     def recall(self, test, st):
         """earlier decision for a textually identical test, provided no self-field mentioned in it was written since"""
+        if isinstance(test, ast.UnaryOp) and isinstance(test.op, ast.Not):
+            r = self.recall(test.operand, st)
+            return None if r is None else (not r)
         text = U.src(test)
         flds = {U.chain(n)[1] for n in ast.walk(test) if isinstance(n, ast.Attribute) and U.chain(n) and U.chain(n)[0] == 'self' and len(U.chain(n)) >= 2}
         idx = None
